@@ -99,6 +99,11 @@ func (c *c18) DumpCase(seed uint64, idx int) []Case {
 			cs.Project = multi
 		}
 	}
+	if r.chance(200) {
+		// blanks, tabs, remarks, stray bytes: where a keyword stands on its line and what follows it
+		// must not matter to the ban
+		cs.Project = lineNoise(&cs.Project, r)
+	}
 	// banned set: singletons first (every kind many times), then larger subsets
 	var banned []int
 	if idx%3 != 2 {
